@@ -13,6 +13,18 @@ P.const('Node.DOCUMENT_FRAGMENT_NODE', 11)
 P.fn('Node.childNodes', params=dict(self='Node'), returns='list[Node]', ensures=['result is self'], trusted=True, kind='property',
      notes="a node's child list is the node's own list (the attributes['self'] aliasing of childNodes is excluded)")
 
+def hook_eq(ex, a, b, st):
+    """Node.__eq__ is structural (and Text nodes compare as strings): `==` on two nodes holds for identical nodes and is
+    otherwise an uninterpreted relation -- code that must find a node by identity cannot use it."""
+    import z3
+    from pyvc import ty as T
+    if isinstance(a.t, T.Ref) and isinstance(b.t, T.Ref):
+        f = ex.uf('NODE_EQ', [T.Ref('Node'), T.Ref('Node')], T.Bool)
+        return z3.Or(a.z == b.z, f(a.z, b.z))
+    return None
+
+
+P.hook_eq = hook_eq
 FRAG = '(%s.nodeType == 11)'
 NOSELF = ['newChild is not self']
 WFN = ['all(not isnone(self[j]) for j in range(len(self)))']
@@ -140,6 +152,8 @@ for nm, off in (('insertBefore', 0), ('insertAfter', 1)):
                   'len(self) == old(len(self)) + (0 if old(' + ISCHILD % 'newChild' + ') else 1)',
                   'newChild.parentNode is (self.parentNode if self.nodeType == 11 else self)', 'newChild.ownerDocument is self.ownerDocument'],
          modifies=[Mod('list:Node', 'r is self'), Mod('parentNode', 'r is newChild'), Mod('ownerDocument', 'r is newChild')],
+         # witness for the existential postcondition: the loop index at the return
+         at_exit=['self[i + %d] is refChild and self[i + %d] is newChild and 0 <= i and i + 1 < len(self)' % ((1, 0) if nm == 'insertBefore' else (0, 1))],
          loops={0: Loop(index='k', inv=['k <= len(self)', 'all(self[q] is not refChild for q in range(k))',
                                         'all(not isnone(self[j]) for j in range(len(self)))',
                                         'all(self[j] is not newChild for j in range(len(self)))',
@@ -149,21 +163,25 @@ for nm, off in (('insertBefore', 0), ('insertAfter', 1)):
 
 PO = 'FIRST(old(seq(self)), oldChild, 0)'
 P.fn(F + 'Node.replaceChild', name='Node.replaceChild', params=dict(self='Node', newChild='Node', oldChild='Node'), returns='Node',
-     requires=NOSELF + WFN + ['newChild.nodeType != 11'],
+     requires=NOSELF + WFN + FLATFRAG + ['implies(newChild.nodeType == 11, all(self[j] is not newChild for j in range(len(self))) and newChild is not oldChild)'],
      raises={'NotFoundErr': 'all(self[j] is not oldChild for j in range(len(self)))'},
      ensures=['result is oldChild',
               'implies(newChild is oldChild, seq(self) == old(seq(self)))',
+              # a fragment is replaced by its children, in order
+              'implies(newChild.nodeType == 11, seq(self) == old(seq(self))[:%s] + old(seq(newChild)) + old(seq(self))[%s + 1:])' % (PO, PO),
               # a new child that was not yet a child takes exactly the slot of the (first occurrence of the) old one
-              'implies(newChild is not oldChild and old(all(self[j] is not newChild for j in range(len(self)))), '
+              'implies(newChild.nodeType != 11 and newChild is not oldChild and old(all(self[j] is not newChild for j in range(len(self)))), '
               'seq(self) == old(seq(self))[:%s] + [newChild] + old(seq(self))[%s + 1:])' % (PO, PO),
-              'any(self[p] is newChild for p in range(len(self)))',
+              'implies(newChild.nodeType != 11, any(self[p] is newChild for p in range(len(self))))',
               'newChild.parentNode is (self.parentNode if self.nodeType == 11 else self)', 'newChild.ownerDocument is self.ownerDocument'],
-     modifies=[Mod('list:Node', 'r is self'), Mod('parentNode', 'r is newChild'), Mod('ownerDocument', 'r is newChild')],
+     modifies=MODL,
+     at_exit=['implies(newChild.nodeType != 11, self[i] is newChild and 0 <= i and i < len(self))'],
      loops={0: Loop(index='k', inv=['k <= len(self)', 'all(self[q] is not oldChild for q in range(k))',
                                     'all(not isnone(self[j]) for j in range(len(self)))',
                                     'implies(newChild is oldChild or old(all(self[j] is not newChild for j in range(len(self)))), seq(self) == old(seq(self)))',
                                     'implies(all(self[j] is not oldChild for j in range(len(self))), old(all(self[j] is not oldChild for j in range(len(self)))))',
-                                    'FIRST(seq(self), oldChild, k) == FIRST(seq(self), oldChild, 0)'],
+                                    'implies(newChild is oldChild or old(all(self[j] is not newChild for j in range(len(self)))), '
+                                    'FIRST(old(seq(self)), oldChild, k) == FIRST(old(seq(self)), oldChild, 0))'],
                     modifies=[])})
 
 P.fn(F + 'Node.extend', name='Node.extend', params=dict(self='Node', other='list[Node]', setParent='bool=True'), returns='Node',
